@@ -23,6 +23,7 @@ from .. import dsvalues as V
 from ..lib import CheckResult, Violation
 
 PID = "C64"
+ND, NP = 3, 2            # slots and paths observed in every replay (the trace spec runs with D = 1..3, P = 1..2)
 ATTRSEQ = '<<"a", "b">>'
 ALL_OPEN = '{"w", "w-", "a", "r", "copy"}'
 ALL_WRITE = '{"w", "w-", "a"}'
@@ -89,25 +90,29 @@ S_MEM_A = script(*P_MEM_A)
 RICH = [P_FILE_AB, P_TWO_MEM, P_FILE_AND_MEM, P_HANDLE_AND_MEM, P_NESTED]
 
 
+def scripts(*pairs):
+    """TLA+ text of the constant Scripts: pairs (prefix as list of events, number of free calls)"""
+    return "{" + ", ".join(f"[s |-> {script(*p)}, m |-> {m}]" for p, m in pairs) + "}"
+
+
 def families(tier):
-    """(name, constants/defs, mode) for the generator runs"""
+    """(name, constants/defs, simulation) for the generator runs.  One TLC run per family; a family is a set of
+    (scripted prefix, number of free calls) over one alphabet."""
     full = {"D": "1..2", "P": "1..2", "OpenModes": ALL_OPEN, "WriteModes": ALL_WRITE, "Nested": "TRUE"}
     core = {"D": "1..2", "P": "1..1", "OpenModes": '{"a", "copy", "r"}', "WriteModes": '{"a", "w"}', "Nested": "FALSE"}
-    rich = "{" + ", ".join(script(*p) for p in RICH) + "}"
-    rich_b = "{" + ", ".join(script(*p) for p in (P_TWO_MEM, P_HANDLE_AND_MEM)) + "}"
     if tier == "quick":
         return [
-            ("full3", dict(full, Scripts="{<<>>}", MaxSteps=3), None),               # everything that can be done in 3 calls from nothing
-            ("rich1", dict(full, Scripts=rich, MaxSteps=1), None),                   # every single call from five rich states
-            ("rich2", dict(full, Scripts=rich_b, MaxSteps=2), None),                 # every two calls from two of them (sampled above the cap)
-            ("core3", dict(core, Scripts="{" + S_MEM_A + "}", MaxSteps=3), None),    # write / append / copy / read core on one path
-            ("deep", dict(full, D="1..3", Scripts="{<<>>}", MaxSteps=10), ("num=60", 11)),
+            # everything that can be done in 3 calls from nothing; every single call from five rich states; every two calls from
+            # two of them (sampled above the cap)
+            ("main", dict(full, Scripts=scripts(([], 3), *[(p, 1) for p in RICH], (P_TWO_MEM, 2), (P_HANDLE_AND_MEM, 2))), None),
+            # write / append / copy / read core on one path, 3 calls after d1 = {a}
+            ("core", dict(core, Scripts=scripts((P_MEM_A, 3))), None),
+            ("deep", dict(full, D="1..3", Scripts=scripts(([], 10))), ("num=60", 11)),
         ]
     return [
-        ("full4", dict(full, Scripts="{<<>>}", MaxSteps=4), None),
-        ("rich2", dict(full, Scripts=rich, MaxSteps=2), None),
-        ("core4", dict(core, Scripts="{" + S_MEM_A + "}", MaxSteps=4), None),
-        ("deep", dict(full, D="1..3", Scripts="{<<>>}", MaxSteps=14), ("num=300", 15)),
+        ("main", dict(full, Scripts=scripts(([], 4), *[(p, 2) for p in RICH])), None),
+        ("core", dict(core, Scripts=scripts((P_MEM_A, 4))), None),
+        ("deep", dict(full, D="1..3", Scripts=scripts(([], 14))), ("num=300", 15)),
     ]
 
 
@@ -119,7 +124,7 @@ def gen_run(name, c, sim, seed, workers=None):
     if sim:
         kw = {"simulate": sim[0], "depth": sim[1], "seed": seed + 1}
         workers = 1                                  # one simulation worker: the run is deterministic for a seed
-    r = lib.run_tlc_mc("DatasetStoreGen", defs, wd, constants={"MaxSteps": c["MaxSteps"], "Nested": c["Nested"], "Canon": "TRUE"},
+    r = lib.run_tlc_mc("DatasetStoreGen", defs, wd, constants={"MaxSteps": 99, "Nested": c["Nested"], "Canon": "TRUE"},
                        init="GInit", next_="GNext", constraints=["Emit"], invariants=["TypeOK"], timeout=1500, workers=workers, **kw)
     lib.require_ok(r, f"DatasetStoreGen/{name}")
     seen, out = set(), []
@@ -447,10 +452,11 @@ def run(tier, seed):
 
     # ---- phase 2: jobs
     scale = float(os.environ.get("VERIF_C64_SCALE", "1"))            # development only: shrink the sampled families
-    caps = {"quick": {"full3": None, "rich1": None, "rich2": 1200, "core3": 800, "deep": 150},
-            "thorough": {"full4": None, "rich2": None, "core4": 40000, "deep": 4000}}[tier]
+    # cap on the number of replayed histories with >= 2 free calls after a scripted prefix / of core / of deep histories
+    caps = {"quick": {"main": 800, "core": 500, "deep": 100},
+            "thorough": {"main": None, "core": 40000, "deep": 4000}}[tier]
     if scale != 1:
-        caps = {k: int((v or 1000) * scale) for k, v in caps.items()}
+        caps = {k: int((v or 3000) * scale) for k, v in caps.items()}
     jobs, meta, groups = [], {}, []
     fam_info = {}
     jid = 0
@@ -465,13 +471,17 @@ def run(tier, seed):
             hists = sorted(hists, key=lambda j: (-len(j["hist"]), json.dumps(j["hist"], sort_keys=True)))
             long_ = [j for j in hists if len(j["hist"]) >= 6]
             hists = rng.sample(long_, min(cap, len(long_)))
-        elif cap is not None and total > cap:
-            keep1 = [j for j in hists if len(j["hist"]) - j["pre"] <= 1]       # every one-call continuation of a scripted prefix
-            rest = [j for j in hists if len(j["hist"]) - j["pre"] > 1]
-            hists = keep1 + rng.sample(rest, max(0, cap - len(keep1)))
-            exhaustive = False
+        elif cap is not None:
+            # always replayed: every history from nothing, every one-call continuation of a scripted prefix
+            keep = [j for j in hists if (j["pre"] == 0 or j["free"] <= 1) and name == "main"]
+            rest = [j for j in hists if not ((j["pre"] == 0 or j["free"] <= 1) and name == "main")]
+            if len(rest) > cap:
+                rest = rng.sample(rest, cap)
+                exhaustive = False
+            hists = keep + rest
         fam_info[name] = {"histories_enumerated": total, "replayed": len(hists), "tlc_states": r.distinct,
-                          "simulation": bool(sim), "bounds": {k: c[k] for k in ("D", "P", "MaxSteps", "Nested", "OpenModes", "WriteModes")}}
+                          "simulation": bool(sim), "bounds": {k: c[k] for k in ("D", "P", "Nested", "OpenModes", "WriteModes")},
+                          "prefix_length_and_free_calls": sorted({(j["pre"], j["free"]) for j in hists})}
         gjobs, seen_pre = [], set()
         for j in hists:
             pre = j["pre"]
@@ -480,10 +490,10 @@ def run(tier, seed):
             seen_pre.add(pkey)
             job = {"id": jid, "hist": j["hist"], "plan": plan_for(j["hist"], rng, terms, containers), "seed": seed * 1000003 + jid,
                    "obs_from": obs_from}
-            meta[jid] = {"family": name, "exp": j["exp"], "nd": nd, "np": np_}
+            meta[jid] = {"family": name, "exp": j["exp"], "nd": ND, "np": NP}
             gjobs.append(job)
             jid += 1
-        groups.append((gjobs, nd, np_))
+        groups.append((gjobs, ND, NP))
         jobs += gjobs
     # the value grammar: every term goes through the write / append / copy history
     vhist = py_history(P_VALUE)
@@ -492,14 +502,14 @@ def run(tier, seed):
     if tier == "quick":          # every term of depth <= 1, a seeded sample of the depth-2 terms (all of them in the thorough tier)
         shallow = [t for t in terms if term_depth(t) <= 1]
         deep2 = [t for t in terms if term_depth(t) > 1]
-        vterms = shallow + rng.sample(deep2, min(int(320 * scale), len(deep2)))
+        vterms = shallow + rng.sample(deep2, min(int(200 * scale), len(deep2)))
         exhaustive = False
     for t in vterms:
         job = {"id": jid, "hist": vhist, "plan": [t, {"k": rng.choice(V.CHEAP), "ch": []}], "seed": seed * 1000003 + jid, "obs_from": 0}
-        meta[jid] = {"family": "values", "exp": None, "nd": 2, "np": 2, "term": t}
+        meta[jid] = {"family": "values", "exp": None, "nd": ND, "np": NP, "term": t}
         vjobs.append(job)
         jid += 1
-    groups.append((vjobs, 2, 2))
+    groups.append((vjobs, ND, NP))
     jobs += vjobs
     fam_info["values"] = {"terms_enumerated": len(terms), "replayed": len(vjobs), "history": [short_event(e) for e in vhist],
                           "leaf_classes": list(V.CLASSES), "pool_sizes": {k: len(v) for k, v in V.pools().items()}}
@@ -527,7 +537,7 @@ def run(tier, seed):
     for (nd, np_), ids in shaped:
         traces = [results[i]["trace"] for i in ids]
         ctl = []
-        if (nd, np_) == (2, 2) and first22:
+        if first22:
             first22 = False
             cand = [i for i in ids if not any(r["e"]["act"] in ("ReadDS", "WriteDS", "ReadPath") for r in results[i]["trace"])]
             rng.shuffle(cand)
@@ -586,6 +596,8 @@ def run(tier, seed):
             # cross-check with the generator's own expectation for the end of the history
             if m["exp"] is not None and res["trace"] and res["trace"][-1]["chk"]:
                 want = json.loads(json.dumps(m["exp"]))
+                want["ds"] += [["none", 0]] * (ND - len(want["ds"]))            # every history is observed with ND slots and NP paths
+                want["files"] += [[False, 0]] * (NP - len(want["files"]))
                 o = res["trace"][-1]["obs"]
                 got = {"ds": [[d[0], d[1] if d[0] == "open" else 0] for d in o["ds"]],
                        "files": [[f[0], f[2] if f[0] and not f[1] else 0] for f in o["files"]]}
